@@ -58,19 +58,38 @@ func (s *recStore) RevertBlock(cs consensus.State, cru consensus.RevertUpdate) {
 // simulated disk.
 type chainSUT struct {
 	net   *gen.Net
-	disk  *simdisk.DB
+	db    chain.DB    // whatever backend the store sits on
+	disk  *simdisk.DB // non-nil when the backend is the simulated disk
 	store *recStore
 	cm    *chain.Manager
 }
 
 func newChainSUT(e *sim.Env, net *gen.Net, disk *simdisk.DB) *chainSUT {
+	s := newChainSUTOn(e, net, disk)
+	s.disk = disk
+	return s
+}
+
+// dump returns the live pairs of a bucket through the chain.DB interface.
+func (s *chainSUT) dump(name string) map[string][]byte {
+	out := map[string][]byte{}
+	b := s.db.Bucket([]byte(name))
+	if b == nil {
+		return out
+	}
+	for k, v := range b.Iter() {
+		out[string(k)] = append([]byte(nil), v...)
+	}
+	return out
+}
+
+func newChainSUTOn(e *sim.Env, net *gen.Net, disk chain.DB) *chainSUT {
 	dbs, tip, err := chain.NewDBStore(disk, net.Network, net.Genesis, nil)
 	if err != nil {
 		e.Violationf(e.Property+".open", "NewDBStore", "NewDBStore on a fresh database failed: %v", err)
 	}
 	rs := &recStore{DBStore: dbs}
-	s := &chainSUT{net: net, disk: disk, store: rs, cm: chain.NewManager(rs, tip) }
-	return s
+	return &chainSUT{net: net, db: disk, store: rs, cm: chain.NewManager(rs, tip)}
 }
 
 // reopenChainSUT opens a manager on an existing database image.
@@ -80,7 +99,7 @@ func reopenChainSUT(net *gen.Net, disk *simdisk.DB) (*chainSUT, error) {
 		return nil, err
 	}
 	rs := &recStore{DBStore: dbs}
-	return &chainSUT{net: net, disk: disk, store: rs, cm: chain.NewManager(rs, tip)}, nil
+	return &chainSUT{net: net, db: disk, disk: disk, store: rs, cm: chain.NewManager(rs, tip)}, nil
 }
 
 func blocksOf(nodes []*gen.Node) []types.Block {
@@ -229,7 +248,7 @@ func takeView(s *chainSUT, withDetail bool) view {
 	he := sha256.New()
 	maxExp := uint64(0)
 	for _, name := range elementBuckets {
-		d := s.disk.Dump(name)
+		d := s.dump(name)
 		keys := make([]string, 0, len(d))
 		for k := range d {
 			keys = append(keys, k)
@@ -270,7 +289,7 @@ func takeView(s *chainSUT, withDetail bool) view {
 	hExp.Sum(v.Expiring[:0])
 
 	hm := sha256.New()
-	mc := s.disk.Dump("MainChain")
+	mc := s.dump("MainChain")
 	keys := make([]string, 0, len(mc))
 	for k := range mc {
 		keys = append(keys, k)
